@@ -1,3 +1,6 @@
+import Unimock.Generated.Typestate
+import Unimock.Lemmas.Gates
+import Unimock.Generated.Control
 import Unimock.Model.Assemble
 import Unimock.Generated.TupleImpls
 import Unimock.Lemmas.State
@@ -338,5 +341,51 @@ open Typestate in
 /-- non-vacuity: `next_call(..).returns(v).n_times(2).then().answers(..)` reads as two segments -/
 example : ((toSegs (ρ := Int) 5 9 true [.returns true, .nTimes, .then_, .other]).map (·.length)) = some 2 ∧
     accepts .nextCall [.returns true, .nTimes, .then_, .other] = true := by decide
+
+/-! ### `Sink::push` of the assembler as the source has it (`Generated/Control.lean`, re-translated on every run) -/
+
+/-- the re-translated statement list of `push` with the two arms of its `Entry` match decides as the model on each of the 8
+    observations: an output error is reported before anything else (no slots allocated); a mocker of the other match mode
+    is reported right there, at construction; otherwise the pattern is appended / the mocker inserted -/
+theorem C14_source_push_sequence :
+    ∀ o : Gates.PObs, Gates.runP Generated.pushOccupied Generated.pushVacant Generated.pushSteps o false none = Gates.specPush o := by
+  intro ⟨a, b, c⟩; cases a <;> cases b <;> cases c <;> rfl
+
+/-- hence the model's `Asm.push` is the source's `push` run on what it observes -/
+theorem C14_source_push {α ρ} (a : Asm α ρ) (t : Terminal α ρ) :
+    match (Gates.runP Generated.pushOccupied Generated.pushVacant Generated.pushSteps (pushObs a t) false none).1 with
+    | .errOutput => a.push t = .error .outputError
+    | .errMode => ∃ fm, (newPattern a t.b).1.mockers.find? (·.info.id = t.info.id) = some fm ∧
+        a.push t = .error (.modeConflict fm.info fm.mode t.b.mode)
+    | .appended => ∃ a', a.push t = .ok a' ∧ a'.cur = (newPattern a t.b).1.cur ∧ a'.mockers.length = a.mockers.length
+    | .inserted => ∃ a', a.push t = .ok a' ∧ a'.cur = (newPattern a t.b).1.cur ∧ a'.mockers.length = a.mockers.length + 1
+    | .fellThrough => False := by
+  rw [C14_source_push_sequence]; exact push_eq_spec a t
+
+/-- non-vacuity: a second clause of the other mode for a known method is rejected -/
+example : (Gates.runP Generated.pushOccupied Generated.pushVacant Generated.pushSteps ⟨false, true, true⟩ false none).1 = .errMode := by decide
+
+/-! ### the type-state as the source's *signatures* have it (`Generated/Typestate.lean`, re-translated on every run) -/
+section SourceTypestate
+open Typestate
+
+/-- the transition function interpreted from the re-translated signature table — which struct each builder method returns,
+    its `where` bounds, the `Kind` of each marker type — is the model's `step` on every one of the 14 × 7 (state, call) pairs -/
+theorem C14_source_typestate_step (s : St) (c : Call) :
+    stepOf Generated.sigTable Generated.ordKind Generated.repKind s c = Typestate.step s c := by
+  exact forall_step (P := fun s c => stepOf Generated.sigTable Generated.ordKind Generated.repKind s c = Typestate.step s c)
+    (by decide) s c
+
+/-- entry points: the struct and ordering marker each returns are the model's start states, and the run-time match mode
+    each passes along is the one its marker names -/
+theorem C14_source_entry_points :
+    Generated.entryTable.all (fun (e, tag, o, mode) => mkSt tag o none true == some e.start && o == mode) = true ∧
+    Generated.entryTable.map (·.1) = [.nextCall, .someCall, .eachCall, .stubCall] := by decide
+
+/-- the builder structs that implement `Clause` are the model's `isClause` states -/
+theorem C14_source_clause_structs (s : St) : s.isClause = Generated.clauseStructs.contains s.tag := by
+  cases s <;> rfl
+
+end SourceTypestate
 
 end Unimock
